@@ -103,8 +103,9 @@ def basic_render(
                 node = repr(end)
             line += f"{node}, "
 
-        # remove trailing comma & space
-        line = line[:-2]
+        # remove trailing comma & space (only present if there were neighbors)
+        if len(nbs) > 0:
+            line = line[:-2]
         lines.append(line)
 
     return "\n".join(lines)
